@@ -8,4 +8,9 @@ require (
 	pgregory.net/rapid v1.1.0
 )
 
+require (
+	github.com/google/go-cmp v0.6.0 // indirect
+	gotest.tools/v3 v3.5.1 // indirect
+)
+
 replace github.com/cosmos/cosmos-proto => /repo
